@@ -32,7 +32,7 @@ var c07Deltas = []int64{
 }
 
 type c07Stats struct {
-	nullKey, emptyKey, nullVal, emptyVal, hdrs, hdrNullVal, hdrEmptyVal, hdrEmptyKey, maxHdrs   int
+	nullKey, emptyKey, nullVal, emptyVal, hdrs, hdrNullVal, hdrEmptyVal, hdrEmptyKey, maxHdrs      int
 	tsNeg, tsOverInt32, tsZero, tsOver5ByteVarint, delta0NonZero, bigBatch, oneRecordBatch, bigVal int
 }
 
